@@ -6,6 +6,7 @@ import fnmatch
 import re
 import common as C
 import gen_path
+import gen_path_unlink
 
 PROPERTIES = ["C19"]
 MANIFEST = {
@@ -16,7 +17,7 @@ MANIFEST = {
         "design_ref": "DESIGN.md 3/C19",
     }
 }
-PROPS = ["Nstd.Path.Props", "Nstd.Path.FsProps", "Nstd.Path.Props2", "Nstd.Path.FsProps2", "Nstd.Path.PropsStr", "Nstd.Path.PropsScan", "Nstd.Path.PropsObj"]
+PROPS = ["Nstd.Path.Props", "Nstd.Path.FsProps", "Nstd.Path.Props2", "Nstd.Path.FsProps2", "Nstd.Path.PropsStr", "Nstd.Path.PropsScan", "Nstd.Path.PropsObj", "Nstd.Path.PropsUnlinkTie"]
 LEAN_TARGETS = PROPS + ["drv_path"]
 DRIVER = "drv_path"
 SOURCES = ["path.cpp", C.REPO / "src/File.cpp", C.REPO / "src/Directory.cpp", C.REPO / "src/String.cpp",
@@ -34,8 +35,21 @@ def translate(repo=None):
         return False, "tools/gen_path.py: " + str(e)
 
 
+def translate_unlink(repo=None):
+    """(ok, message): the entry-type decision of the readdir loop of Directory::unlink (POSIX branch of the CURRENT
+    src/Directory.cpp) -> lean/Nstd/Generated/PathUnlink.lean (tools/gen_path_unlink.py)"""
+    try:
+        return True, gen_path_unlink.generate(repo or C.REPO)
+    except gen_path_unlink.Refuse as e:
+        return False, "tools/gen_path_unlink.py refuses the current src/Directory.cpp (broken tie): " + str(e)
+    except OSError as e:
+        return False, "tools/gen_path_unlink.py: " + str(e)
+
+
 def gen(ctx):
     ok, msg = translate()
+    ok2, msg2 = translate_unlink()
+    ok, msg = ok and ok2, msg + " || " + msg2
     if ctx is not None:
         ctx.cov.setdefault("translated", msg)
         ctx.log("translator: " + msg)
@@ -44,6 +58,9 @@ def gen(ctx):
 
 def setup():
     ok, msg = translate()
+    if not ok:
+        print("path translate:", msg)
+    ok, msg = translate_unlink()
     if not ok:
         print("path translate:", msg)
 
